@@ -292,6 +292,17 @@ def execStepF (fuse : Nat) (dropFuse : Bool) (plain : Stmt → St P → R (St P 
         | _ => .error (.fault stuck)
       | _ => .error (.fault stuck)
     | none => .error (.fault stuck)
+  | .whileSomeCall ev f body, st => do
+    let (s, r) ← fromCall st none (callfF f st.s [] [] [])
+    match r with
+    | .optEntry (some e) => do
+      let (st, fl) ← execStepF fuse dropFuse plain callf recF callfF byRef body ((st.setS s).setV ev (.optEntry (some e)))
+      match fl with
+      | .normal => recF (.whileSomeCall ev f body) st
+      | .brk => pure (st, .normal)
+      | .ret v => pure (st, .ret v)
+    | .optEntry none => pure (st.setS s, .normal)
+    | _ => .error (.fault stuck)
   | c, st => liftF (plain c st)
 
 /-- fused call: run the body; when it panics, run the frame's unwind code (plain: it contains no panic point) on the state
